@@ -2,10 +2,19 @@
    Proved (game-tree level): negating every leaf and swapping the players negates minimax, alpha-beta
    (with the mirrored window) and the root loop's score, the same move being chosen; score negation is
    an order anti-automorphism mapping white mate-in-n to black mate-in-n; alpha-beta's value does not
-   depend on child order.  OPEN: the game tree of the mirrored position is the negated tree of the
-   position up to child order (C13_mirror_statement); decided per run on mirrored pairs, depth by depth. *)
+   depend on child order.
+   CLOSED in round 3 (proofs/Symmetry.v): for two boards satisfying the invariant Good whose rules-level positions are
+   colour mirrors of each other (swap the colours, flip the ranks; the full-move number aside), the search model with the
+   shipped configuration (positional = false, empty repetition table) reports, for every completed depth, exactly the
+   negated score - whatever the two timeouts, poll counts and previous-best moves were (C13_score_negates_per_depth), and
+   two searches stopping at the same depth return negated scores (C13_search_negates, C13_search_negates_reachable); roots
+   with a promotion move are excluded as in the property.  Route: the score of a completed pass is the minimax value of the
+   game tree the model explores (SearchTree); the rules are mirror symmetric (MirrorRules), the evaluation antisymmetric
+   (MirrorEval), mirror images stay mirror images under corresponding moves and look the same to every test of the search
+   (MirrorBoard); hence the two game trees are mirror images up to the order of children (MirrorSearch). *)
 From Coq Require Import NArith ZArith List Bool Permutation.
 From Chess Require Import base.Types model.Score proofs.ScoreOrder spec.GameTree proofs.GameTreeFacts.
+From Chess Require base.Bits model.Board model.MoveGen model.Search spec.Rules proofs.SearchFacts proofs.MirrorEval proofs.Reachable proofs.Symmetry.
 
 Theorem C13_neg_anti : forall a b, cmp (neg a) (neg b) = cmp b a.
 Proof. exact neg_anti. Qed.
@@ -25,3 +34,35 @@ Proof. exact AB_exact_tree_perm. Qed.
 Print Assumptions C13_order_independent.
 Example C13_mate_mirrors : neg (SWhiteMateIn 3) = SBlackMateIn 3 /\ neg (SRaw 25) = SRaw (-25).
 Proof. split; reflexivity. Qed.
+
+Theorem C13_score_negates_per_depth :
+  forall k k' fuel root root' depth prev prev' st st0 sc sc' best best' st' st0',
+  MirrorEval.Mir root root' -> (Board.b_half root < 65535)%N ->
+  (forall m, In m (MoveGen.legals root) -> m_promo m = None) ->
+  SearchFacts.prev_legal root prev -> SearchFacts.prev_legal root' prev' ->
+  (N.to_nat depth + SearchFacts.men root < fuel)%nat ->
+  Search.pass k nil fuel root depth prev st = Search.PassDone sc best st' ->
+  Search.pass k' nil fuel root' depth prev' st0 = Search.PassDone sc' best' st0' ->
+  sc' = neg sc.
+Proof. exact Symmetry.search_score_mirror_good. Qed.
+Print Assumptions C13_score_negates_per_depth.
+
+Theorem C13_search_negates :
+  forall k k' passes passes' fuel root root' m m' sc sc' d f f',
+  MirrorEval.Mir root root' -> (Board.b_half root < 65535)%N ->
+  (forall x, In x (MoveGen.legals root) -> m_promo x = None) -> (SearchFacts.men root < fuel)%nat ->
+  Search.search k nil passes fuel root = (Some m, sc, d, f) ->
+  Search.search k' nil passes' fuel root' = (Some m', sc', d, f') ->
+  sc' = neg sc.
+Proof. exact Symmetry.search_result_mirror_good. Qed.
+Print Assumptions C13_search_negates.
+
+Theorem C13_search_negates_reachable :
+  forall k k' passes passes' fuel root root' m m' sc sc' d f f',
+  Reachable.Reachable root -> Reachable.Reachable root' -> Symmetry.mirror_images root root' -> (Board.b_half root < 65535)%N ->
+  (forall x, In x (MoveGen.legals root) -> m_promo x = None) -> (SearchFacts.men root < fuel)%nat ->
+  Search.search k nil passes fuel root = (Some m, sc, d, f) ->
+  Search.search k' nil passes' fuel root' = (Some m', sc', d, f') ->
+  sc' = neg sc.
+Proof. exact Symmetry.search_result_mirror_reachable. Qed.
+Print Assumptions C13_search_negates_reachable.
